@@ -14,7 +14,7 @@ from pyvc import ops, ghostlib
 from pyvc.harness import Ctx, refines
 from pyvc.path import fresh_name
 from pyvc.sorts import TypeDesc as T
-from pyvc.values import RecSchema, Unsupported
+from pyvc.values import RecSchema, Unsupported, RaiseSignal
 
 JA = 'dznpy.json_ast'
 
@@ -410,3 +410,252 @@ def run_documents(ctx: Ctx):
         for q in (f'{JA}.DznJsonAst.parse_element', 'specs.parse_spec.decls_of',
                   'dznpy.scoping.NamespaceTree.fqn_member_name', 'specs.scoping.tree_fqn'):
             I.overrides.pop(q, None)
+
+
+# ===================================================================== ANY JSON value (C15: ill-formed input)
+def generic_json(I):
+    """JSON value of unknown shape: null | bool | int | float | str | list of JSON values | object.  An object is a
+    symbolic dict: key set and values are uninterpreted functions of its identity (pyvc DictV with symbolic domain)."""
+    from pyvc.values import JUnion, JUnionV, SeqV, DictV
+    d = z3.Datatype('JGen')
+    ref = z3.DatatypeSort('JGen')
+    d.declare('j_null')
+    d.declare('j_bool', ('j_bool_v', z3.BoolSort()))
+    d.declare('j_int', ('j_int_v', z3.IntSort()))
+    d.declare('j_float', ('j_float_id', z3.IntSort()))
+    d.declare('j_str', ('j_str_v', z3.StringSort()))
+    d.declare('j_list', ('j_list_v', z3.SeqSort(ref)))
+    d.declare('j_dict', ('j_dict_id', z3.IntSort()))
+    sort = d.create()
+    U = JUnion('JGen', sort)
+    dom = z3.Function('json.keys', z3.IntSort(), z3.SetSort(z3.StringSort()))
+    val = z3.Function('json.value', z3.IntSort(), z3.ArraySort(z3.StringSort(), sort))
+    td = T('junion', U)
+
+    def mk_list(i, e, p):
+        v = SeqV(i.seq_of_base(sort.accessor(5, 0)(e), td, p), frozen=True)
+        v.json = True
+        return v
+
+    def mk_dict(i, e, p):
+        ident = sort.accessor(6, 0)(e)
+        v = DictV(dom=dom(ident), val=val(ident), val_wrap=lambda x: JUnionV(U, x))
+        v.json = True
+        return v
+    U.variants += [(sort.recognizer(0), lambda i, e, p: None),
+                   (sort.recognizer(1), lambda i, e, p: sort.accessor(1, 0)(e)),
+                   (sort.recognizer(2), lambda i, e, p: sort.accessor(2, 0)(e)),
+                   # any float behaves alike for the parser (it only tests types): represented by 0.5
+                   (sort.recognizer(3), lambda i, e, p: 0.5),
+                   (sort.recognizer(4), lambda i, e, p: ops.mkstr([sort.accessor(4, 0)(e)])),
+                   (sort.recognizer(5), mk_list),
+                   (sort.recognizer(6), mk_dict)]
+    return U
+
+
+DOCUMENTED = ('DznJsonError', 'NamespaceIdsTypeError')
+ANY_FUNCS = ('parse_scope_name', 'parse_formal', 'parse_formals', 'parse_signature', 'parse_event', 'parse_events',
+             'parse_port', 'parse_ports', 'parse_instance', 'parse_instances', 'parse_endpoint', 'parse_binding',
+             'parse_bindings', 'parse_fields', 'parse_range', 'parse_data', 'parse_namespace', 'parse_root',
+             'parse_comment', 'parse_import', 'parse_filename', 'get_class_value', 'parse_port_injected_indication')
+ANY_DECLS = ('parse_enum', 'parse_subint', 'parse_extern', 'parse_foreign', 'parse_component', 'parse_system',
+             'parse_types', 'parse_interface')
+
+
+RESULT_CLASS = {'parse_scope_name': 'ScopeName', 'parse_formal': 'Formal', 'parse_formals': 'Formals',
+                'parse_signature': 'Signature', 'parse_event': 'Event', 'parse_events': 'Events', 'parse_port': 'Port',
+                'parse_ports': 'Ports', 'parse_instance': 'Instance', 'parse_instances': 'Instances',
+                'parse_endpoint': 'EndPoint', 'parse_binding': 'Binding', 'parse_bindings': 'Bindings',
+                'parse_fields': 'Fields', 'parse_range': 'Range', 'parse_data': 'Data', 'parse_comment': 'Comment',
+                'parse_import': 'Import', 'parse_filename': 'Filename', 'parse_port_injected_indication': 'Injected',
+                'parse_enum': 'Enum', 'parse_subint': 'SubInt', 'parse_extern': 'Extern', 'parse_foreign': 'Foreign',
+                'parse_component': 'Component', 'parse_system': 'System', 'parse_types': 'Types',
+                'parse_interface': 'Interface'}
+INLINED = ('parse_namespace', 'parse_root', 'get_class_value')     # small, their results are inspected by the callers
+
+
+def run_out_event_rule(ctx: Ctx):
+    """C15, second sentence: parse_event on an event that is well-formed EXCEPT possibly for the out-event rule (any
+    number of parameters): refused exactly when it is an out event with a non-void reply or with an out parameter."""
+    from props.gen_unbounded import ns_inv
+    I = ctx.interp
+    ghostlib.install(I)
+    I.load_module(JA)
+    spec = I.load_module('specs.parse_spec')
+    S = schemas()
+    install_wellformedness(I, S)
+    invs = dict(I.rec_invs)
+
+    def inv_event_dir(i, p, v):
+        d = i.sorts.rec_accessor(v.schema, 'direction')(v.expr)
+        return z3.Or(d == z3.StringVal('in'), d == z3.StringVal('out'))
+    invs['event'] = [inv_event_dir]          # the out-event rule itself is NOT assumed
+    I.rec_invs = invs
+    saved = dict(I.class_invs)
+    I.class_invs['dznpy.scoping.NamespaceIds'] = [ns_inv]
+    try:
+        f = I.get_function(f'{JA}.parse_event')
+
+        def mk(p):
+            e = I.wrap(T('rec', S['event']), z3.Const('in_elt', I.sorts.sort_of_rec(S['event'])), p)
+            return [e], [e]
+        refines(ctx, 'json_ast.parse_event[out-event-rule]', f'{JA}.parse_event',
+                lambda i, p, a, k: i.call_function(f, a, k, p),
+                lambda i, p, a, k: i.call_function(spec.globals['event_checked'], a, k, p), mk, witness=None,
+                text='an out event with a non-void reply or an out parameter is refused with DznJsonError, every other '
+                     'well-formed event is returned as written')
+    finally:
+        I.class_invs.clear()
+        I.class_invs.update(saved)
+        I.rec_invs = {}
+
+
+def run_any_json(ctx: Ctx, only=None):
+    """C15 for ANY JSON value (any shape, size, nesting): every parser function returns or raises one of the documented
+    errors - never an internal exception.  Modular: inside the function under proof every OTHER parser function is
+    replaced by this very contract ("returns some value of its result class, or raises DznJsonError or
+    NamespaceIdsTypeError", which of the three being an uninterpreted function of its argument); the functions are not
+    recursive except parse_element, whose recursive call is by the same contract (induction on the nesting depth)."""
+    from props.gen_unbounded import ns_inv
+    from pyvc.values import JUnionV, ObjV, SeqV, DtV
+    from pyvc.harness import PROVED
+    I = ctx.interp
+    ghostlib.install(I)
+    ja = I.load_module(JA)
+    A = I.load_module('dznpy.ast')
+    sc = I.load_module('dznpy.scoping')
+    NT = sc.globals['NamespaceTree']
+    U = generic_json(I)
+    saved = dict(I.class_invs)
+    I.class_invs['dznpy.scoping.NamespaceIds'] = [ns_inv]
+    ctx.assumptions.append('any-JSON contracts (C15): a JSON value is null / bool / int / float / str / list / object of '
+                           'arbitrary content; a float is represented by 0.5 (the parser only tests types); the text '
+                           'of lists / objects inside error messages is abstract; callees by the contract under proof')
+    errs = [ja.globals['DznJsonError'], sc.globals['NamespaceIdsTypeError']]
+    install_tree_contracts(I, ctx)         # NamespaceTree.fqn_member_name by its C14 contract (recursive otherwise)
+    uni_types = I.make_union('TypeItem', [A.globals['Enum'], A.globals['SubInt']])
+    state = {'top': None}
+
+    nt_sort = I.sorts.sort_of_class(NT)
+
+    def key_of(v):
+        if isinstance(v, (JUnionV, DtV)):
+            return v.expr
+        if isinstance(v, ObjV) and v.cls is NT:          # a namespace node built by the code under analysis
+            par, scn = v.fields.get('parent'), v.fields.get('scope_name')
+            if par is None:
+                return nt_sort.constructor(0)()
+            kp, ks_ = key_of(par), key_of(scn)
+            if kp is not None and ks_ is not None:
+                return nt_sort.constructor(1)(kp, ks_)
+        return None
+
+    def make_contract(fname):
+        cls = A.globals[RESULT_CLASS[fname]]
+        real = I.get_function(f'{JA}.{fname}')
+
+        def contract(i, path, args, kw):
+            if state['top'] == fname and not state.get('entered'):
+                state['entered'] = True
+                return i.call_function(real, args, kw, path, bypass_override=True)
+            ks = [key_of(a) for a in args]
+            if any(k is None for k in ks):
+                raise Unsupported(f'{fname} by contract: argument without a symbolic identity')
+            out = z3.Function(f'outcome.{fname}', *[k.sort() for k in ks], z3.IntSort())(*ks)
+            if path.branch(out == 0):
+                res = z3.Function(f'result.{fname}', *[k.sort() for k in ks], i.sorts.sort_of_class(cls))(*ks)
+                if fname in ('parse_types', 'parse_interface'):
+                    # the caller filters the nested types by kind: hand out a list of Enum | SubInt values
+                    items = z3.Function(f'result.{fname}.types', *[k.sort() for k in ks],
+                                        z3.SeqSort(uni_types['sort']))(*ks)
+                    types = ObjV(A.globals['Types'], {'elements': SeqV(i.seq_of_base(items, T('union', uni_types), path))})
+                    if fname == 'parse_types':
+                        return types
+                    v = DtV(cls, res)
+                    o = ObjV(cls, {n: i.getattr_(v, n, path) for (n, _) in i.sorts.fields_of(cls) if n != 'types'})
+                    o.fields['types'] = types
+                    return o
+                return DtV(cls, res)
+            e = errs[0] if path.branch(out == 1) else errs[1]
+            raise RaiseSignal(i.call(e, ['rejected (callee contract)'], {}, path))
+        return contract
+
+    pe = I.get_function(f'{JA}.DznJsonAst.parse_element')
+
+    def parse_element_contract(i, path, args, kw):
+        if state['top'] == 'parse_element' and not state.get('entered'):
+            state['entered'] = True
+            return i.call_function(pe, args, kw, path, bypass_override=True)
+        selfv, element, parent = args
+        if not isinstance(element, JUnionV):
+            raise Unsupported('parse_element by contract: element without a symbolic identity')
+        out = z3.Function('outcome.parse_element', U.sort, z3.IntSort())(element.expr)
+        if path.branch(out == 0):
+            return None     # appends to the file contents: not observed by any outcome
+        e = errs[0] if path.branch(out == 1) else errs[1]
+        raise RaiseSignal(i.call(e, ['rejected (callee contract)'], {}, path))
+
+    def classify(oid, fn, p, kind, val):
+        if kind == 'return':
+            return
+        if kind == 'raise':
+            name = val.cls.name if hasattr(val, 'cls') else str(val)
+            if name in DOCUMENTED:
+                return
+            msg = ''
+            try:
+                msg = ' '.join(str(a)[:120] for a in (val.fields.get('args') or ()))
+            except Exception:
+                pass
+            ctx.prove(oid, 'raises', fn, p.child(), False,
+                      f'internal error {name} ({msg}) instead of a documented parser error on some JSON input')
+            return
+        ctx.prove(oid, 'ensures', fn, p.child(), False, f'unexpected outcome {kind}: {val}')
+
+    for fname in RESULT_CLASS:
+        I.overrides[f'{JA}.{fname}'] = make_contract(fname)
+    I.overrides[f'{JA}.DznJsonAst.parse_element'] = parse_element_contract
+    Ast = ja.globals['DznJsonAst']
+    try:
+        targets = list(ANY_FUNCS + ANY_DECLS) + ['parse_element', 'process']
+        for fname in targets:
+            if only and fname not in only:
+                continue
+            qn = f'{JA}.DznJsonAst.{fname}' if fname in ('parse_element', 'process') else f'{JA}.{fname}'
+            f = I.get_function(qn)
+            ctx.functions[qn] = (ctx.functions.get(qn, '') + ' | any JSON value: returns or documented error (proved, '
+                                                             'callees by contract)').lstrip(' |')
+
+            def mk(p, fname=fname):
+                state['entered'] = False
+                x = JUnionV(U, z3.Const('in_json', U.sort))
+                if fname in ANY_DECLS:
+                    return [x, I.fresh_dt(NT, 'in_parent_ns', p)], {}
+                if fname == 'parse_element':
+                    return [I.call(Ast, [], {}, p), x, I.fresh_dt(NT, 'in_parent_ns', p)], {}
+                if fname == 'process':
+                    parser = I.call(Ast, [], {}, p)
+                    parser.fields['_ast'] = x
+                    return [parser], {}
+                return [x], {}
+            state['top'] = fname
+            res = I.run_function(f, mk)
+            state['top'] = None
+            n_bad = 0
+            for k, (p, (kind, val, args)) in enumerate(res):
+                before = len(ctx.obligations)
+                classify(f'any-json.{fname}:path{k}', qn, p, kind, val)
+                n_bad += len(ctx.obligations) != before
+            o = ctx.new(f'any-json.{fname}:outcomes', 'ensures', qn,
+                        f'{fname}(any JSON value): {len(res)} paths; {len(res) - n_bad} end in a return or a documented '
+                        f'error by construction, {n_bad} in another exception and must be infeasible (own obligations)')
+            ctx.settle(o, PROVED, 'syntactic')
+    finally:
+        state['top'] = None
+        for fname in RESULT_CLASS:
+            I.overrides.pop(f'{JA}.{fname}', None)
+        I.overrides.pop(f'{JA}.DznJsonAst.parse_element', None)
+        I.overrides.pop('dznpy.scoping.NamespaceTree.fqn_member_name', None)
+        I.overrides.pop('specs.scoping.tree_fqn', None)
+        I.class_invs.clear()
+        I.class_invs.update(saved)
